@@ -165,7 +165,9 @@ def make_error(
         parts.append(str_fixed(1, b"#"))
         parts.append(str_fixed(5, get_sqlstate(code)))
 
-    parts.append(str_rest(server_charset.encode(str(msg))))
+    # An error message must always reach the client: characters the results
+    # character set cannot represent are replaced, as MySQL does
+    parts.append(str_rest(server_charset.encode(str(msg), errors="replace")))
 
     return _concat(*parts)
 
